@@ -187,14 +187,65 @@ def run(vc):
         p.prove("dc:slack-dispatch", to_z(newpg, R) == oldpg + (F_BVa(zb) - Pbus) * baseMVA.z / z3.ToReal(cnt),
                 note="PG' = PG + (B Va - Pbus)[bus] * baseMVA / #(reference generators at the bus)", meta=dict(part="dc-slack"))
     vc.explore("_run_dc_pf", h_dc, max_paths=20)
+    run_single_slack(vc)
 
 
 def classify(ob, model):
     return ob.meta.get("part", ob.meta.get("label", ob.id).split("[")[0])
 
 
+def run_single_slack(vc):
+    """the fast result routine for networks with one machine: slack power = total demand + total branch losses (+ FACTS), which is the
+    energy balance of the whole network exactly when no bus has a shunt admittance (the routine's documented precondition, established by
+    its caller: C01.run_pfsoln_choice)"""
+    from contracts import C01
+    from pyvc.sigma import sigma
+    from pyvc.interp import Native
+    from pyvc.lib_np import Cols
+    C01.run_pfsoln_choice(vc)
+    PN = "pandapower.pf.pfsoln_numba"
+    iu, ig, ib = consts("pandapower.pypower.idx_bus"), consts("pandapower.pypower.idx_gen"), consts("pandapower.pypower.idx_brch")
+
+    def h(p):
+        bus = pm.bus_mat()
+        pd_, qd_ = pm.colfun(bus, "all", iu.PD), pm.colfun(bus, "all", iu.QD)
+        gs, bs = pm.colfun(bus, "all", iu.GS), pm.colfun(bus, "all", iu.BS)
+        gen = Mat("gen", {"all": Space.get("ppcgen")})
+        br = Mat("branch", {"all": Space.get("ppcbranch")})
+        flows = {c: pm.colfun(br, "all", c) for c in (ib.PF, ib.PT, ib.QF, ib.QT)}
+        me = p.it.modenv(PN)
+        me.vals["_update_v"] = Native(lambda it, b, V: None, name="_update_v", pure=False)
+        me.vals["_update_branch_flows"] = Native(lambda it, Yf, Yt, V, baseMVA, branch: branch, name="_update_branch_flows")
+        empty = {}
+        for nm in ("svc", "tcsc", "ssc", "vsc"):
+            empty[nm] = Mat(nm, {"all": Space.get(f"ppc{nm}")})
+            p.assume(empty[nm].segments["all"].n == 0)
+        # precondition of the routine (documented; established by _get_numba_functions): no shunt admittance at any bus
+        bsp = bus.segments["all"]
+        p.assume(z3.And(to_z(gs, R) == 0, to_z(bs, R) == 0))
+        p.assume(z3.And(to_z(sigma(p.it, Arr(bsp, gs)), R) == 0, to_z(sigma(p.it, Arr(bsp, bs)), R) == 0))
+        p.assume(gen.segments["all"].n == 1)
+        o = Opaque
+        out = p.call(f"{PN}:pf_solution_single_slack", SV(z3.Real("baseMVA")), bus, gen, br, empty["svc"], empty["tcsc"], empty["ssc"], empty["vsc"],
+                     o("Ybus"), o("Yf"), o("Yt"), o("V"), o("ref"), o("ref_gens"))
+        if out.raised:
+            raise EngineError(f"pf_solution_single_slack raised {out.exc!r}")
+        brsp = br.segments["all"]
+        loss_p = to_z(sigma(p.it, Arr(brsp, flows[ib.PF])), R) + to_z(sigma(p.it, Arr(brsp, flows[ib.PT])), R)
+        loss_q = to_z(sigma(p.it, Arr(brsp, flows[ib.QF])), R) + to_z(sigma(p.it, Arr(brsp, flows[ib.QT])), R)
+        dem_p, dem_q = to_z(sigma(p.it, Arr(bsp, pd_)), R), to_z(sigma(p.it, Arr(bsp, qd_)), R)
+        p.prove("single-slack: generation = total demand + total branch losses (P)", to_z(gen.get("all", ig.PG), R) == dem_p + loss_p,
+                meta=dict(part="single-slack"), note="the only machine supplies the sum of all bus demands and of p_from + p_to of all branches")
+        p.prove("single-slack: generation = total demand + total branch losses (Q)", to_z(gen.get("all", ig.QG), R) == dem_q + loss_q,
+                meta=dict(part="single-slack"))
+    vc.explore("pf_solution_single_slack", h, max_paths=20)
+
+
 def replay(ob, model, finding=None):
     part = ob.meta.get("part", "")
+    if part in ("single-slack", "pfsoln-choice"):
+        return {"script": f"# replay of {ob.id}\nfrom replaylib.balance import main_single_slack\nmain_single_slack()\n",
+                "description": "AC power flows of single ext_grid networks with resistive / cancelling shunt elements: generation - consumption = losses"}
     if part.startswith("dc"):
         return {"script": f"# replay of {ob.id}\nfrom replaylib.balance import main_dc\nmain_dc()\n",
                 "description": "DC power flows: p_to = -p_from, total generation = total consumption (also with generators sharing the slack bus)"}
